@@ -1,0 +1,167 @@
+// Copyright 2026 The etcd Authors
+//
+// Licensed under the Apache License, Version 2.0 (the "License");
+// you may not use this file except in compliance with the License.
+// You may obtain a copy of the License at
+//
+//     http://www.apache.org/licenses/LICENSE-2.0
+//
+// Unless required by applicable law or agreed to in writing, software
+// distributed under the License is distributed on an "AS IS" BASIS,
+// WITHOUT WARRANTIES OR CONDITIONS OF ANY KIND, either express or implied.
+// See the License for the specific language governing permissions and
+// limitations under the License.
+
+//go:build verif
+
+package raft
+
+import (
+	pb "go.etcd.io/raft/v3/raftpb"
+	"go.etcd.io/raft/v3/tracker"
+)
+
+// This file is only compiled with the "verif" build tag. It adds read-only
+// introspection of a RawNode for external verification harnesses, plus a
+// setter for the randomized election timeout (the only source of
+// nondeterminism in the state machine). Nothing here is used by the library.
+
+// VerifProgress is a copy of the leader-side view of one peer.
+type VerifProgress struct {
+	ID               uint64
+	Match, Next      uint64
+	State            tracker.StateType
+	PendingSnapshot  uint64
+	RecentActive     bool
+	MsgAppFlowPaused bool
+	IsLearner        bool
+	Paused           bool
+	InflightCount    int
+	InflightFull     bool
+}
+
+// VerifState is a read-only dump of the internal state of a RawNode.
+type VerifState struct {
+	ID, Term, Vote, Lead uint64
+	State                StateType
+	IsLearner            bool
+
+	Commit, Applying, Applied uint64
+
+	// Logical log (stable storage plus unstable tail).
+	FirstIndex, LastIndex uint64
+	LastTerm              uint64
+	// BaseTerm is the term at FirstIndex-1 if known (0 otherwise).
+	BaseTerm uint64
+
+	UnstableOffset           uint64
+	UnstableOffsetInProgress uint64
+	UnstableLen              int
+	// PendingSnapIndex is the index of the unstable snapshot, or 0.
+	PendingSnapIndex   uint64
+	PendingSnapTerm    uint64
+	SnapshotInProgress bool
+
+	// Active configuration (deep copy, including AutoLeave).
+	Voters, VotersOutgoing, Learners, LearnersNext []uint64
+	AutoLeave                                      bool
+	// Progress is sorted by ID.
+	Progress []VerifProgress
+
+	LeadTransferee   uint64
+	PendingConfIndex uint64
+	UncommittedSize  uint64
+	// QueuedReads counts unconfirmed plus postponed ReadIndex requests.
+	QueuedReads int
+
+	ElectionElapsed, HeartbeatElapsed int
+	RandomizedElectionTimeout         int
+
+	// Msgs and MsgsAfterAppend are the not-yet-handed-out messages (shared,
+	// must not be mutated).
+	Msgs, MsgsAfterAppend []*pb.Message
+	// StepsOnAdvance are the self-addressed messages queued for Advance
+	// (the slice is a copy, the messages are shared).
+	StepsOnAdvance []*pb.Message
+
+	ApplyingEntsPaused bool
+
+	// ReadStates are the read states not yet handed out in a Ready (shared).
+	ReadStates []ReadState
+}
+
+// VerifState returns a dump of the internal state.
+func (rn *RawNode) VerifState() VerifState {
+	r := rn.raft
+	l := r.raftLog
+	s := VerifState{
+		ID: r.id, Term: r.Term, Vote: r.Vote, Lead: r.lead,
+		State: r.state, IsLearner: r.isLearner,
+		Commit: l.committed, Applying: l.applying, Applied: l.applied,
+		FirstIndex: l.firstIndex(), LastIndex: l.lastIndex(),
+		UnstableOffset:            l.unstable.offset,
+		UnstableOffsetInProgress:  l.unstable.offsetInProgress,
+		UnstableLen:               len(l.unstable.entries),
+		SnapshotInProgress:        l.unstable.snapshotInProgress,
+		AutoLeave:                 r.trk.Config.AutoLeave,
+		LeadTransferee:            r.leadTransferee,
+		PendingConfIndex:          r.pendingConfIndex,
+		UncommittedSize:           uint64(r.uncommittedSize),
+		QueuedReads:               len(r.readOnly.unconfirmedReads) + len(r.pendingReadIndexMessages),
+		ElectionElapsed:           r.electionElapsed,
+		HeartbeatElapsed:          r.heartbeatElapsed,
+		RandomizedElectionTimeout: r.randomizedElectionTimeout,
+		Msgs:                      r.msgs,
+		MsgsAfterAppend:           r.msgsAfterAppend,
+		StepsOnAdvance:            append([]*pb.Message(nil), rn.stepsOnAdvance...),
+		ApplyingEntsPaused:        l.applyingEntsPaused,
+		ReadStates:                r.readStates,
+	}
+	if t, err := l.term(s.LastIndex); err == nil {
+		s.LastTerm = t
+	}
+	if s.FirstIndex > 0 {
+		if t, err := l.term(s.FirstIndex - 1); err == nil {
+			s.BaseTerm = t
+		}
+	}
+	if sn := l.unstable.snapshot; sn != nil {
+		s.PendingSnapIndex = sn.GetMetadata().GetIndex()
+		s.PendingSnapTerm = sn.GetMetadata().GetTerm()
+	}
+	cs := r.trk.ConfState()
+	s.Voters, s.VotersOutgoing = cs.Voters, cs.VotersOutgoing
+	s.Learners, s.LearnersNext = cs.Learners, cs.LearnersNext
+	r.trk.Visit(func(id uint64, pr *tracker.Progress) {
+		s.Progress = append(s.Progress, VerifProgress{
+			ID: id, Match: pr.Match, Next: pr.Next, State: pr.State,
+			PendingSnapshot: pr.PendingSnapshot, RecentActive: pr.RecentActive,
+			MsgAppFlowPaused: pr.MsgAppFlowPaused, IsLearner: pr.IsLearner,
+			Paused: pr.IsPaused(), InflightCount: pr.Inflights.Count(),
+			InflightFull: pr.Inflights.Full(),
+		})
+	})
+	return s
+}
+
+// VerifLogTerm returns what the combined (stable+unstable) log answers for
+// the term at index i.
+func (rn *RawNode) VerifLogTerm(i uint64) (uint64, error) {
+	return rn.raft.raftLog.term(i)
+}
+
+// VerifLogEntries returns the entries [lo, hi) of the combined log. The
+// returned entries are shared with the log and must not be mutated.
+func (rn *RawNode) VerifLogEntries(lo, hi uint64) ([]*pb.Entry, error) {
+	if lo >= hi {
+		return nil, nil
+	}
+	return rn.raft.raftLog.slice(lo, hi, noLimit)
+}
+
+// VerifSetRandomizedElectionTimeout overrides the randomized election
+// timeout. Calling it before every Tick makes a run a pure function of its
+// inputs.
+func (rn *RawNode) VerifSetRandomizedElectionTimeout(v int) {
+	rn.raft.randomizedElectionTimeout = v
+}
